@@ -95,7 +95,7 @@ PROPERTIES = {
     },
     "C14": {
         "level": "exploration",
-        "classes": ["TSAN_RACE", "ASM_GLOBAL_RACE", "DIGEST_MISMATCH", "DATASET_ITEM_MISMATCH", "DATASET_WRITE_OUTSIDE", "DATASET_MODEL_DISAGREE", "UNEXPECTED_NULL"] + CRASH,
+        "classes": ["TSAN_RACE", "ASM_GLOBAL_RACE", "PROCESS_STATE_RACE", "DIGEST_MISMATCH", "DATASET_ITEM_MISMATCH", "DATASET_WRITE_OUTSIDE", "DATASET_MODEL_DISAGREE", "UNEXPECTED_NULL"] + CRASH,
         "rule": "seeded plans: shared cache(s)/dataset set up by the main task, then 2-4 simulated threads with own VMs of all flag sets, disjoint init_dataset ranges and private objects, run under the seeded scheduler; "
                 "a case is one (plan, schedule); distinct_nontrivial counts distinct plan shapes; distinct interleavings reported separately; "
                 "oracles: TSan happens-before reports (scheduler invisible to TSan), digests/dataset == sequential model, read-only page guards on shared data",
@@ -130,7 +130,7 @@ PROPERTIES = {
     },
     "C11": {
         "level": "exploration",
-        "classes": ["B2_DIGEST", "B2_INIT_STATUS", "B2_UPDATE_STATUS", "B2_FINAL_STATUS", "B2_ONESHOT_STATUS", "B2_ACCEPTED_INVALID", "B2_WRITE_ON_REJECT", "B2_OUTPUT_OVERRUN", "COMMITMENT_MISMATCH", "TSAN_RACE"] + CRASH,
+        "classes": ["B2_DIGEST", "B2_INIT_STATUS", "B2_UPDATE_STATUS", "B2_FINAL_STATUS", "B2_ONESHOT_STATUS", "B2_ACCEPTED_INVALID", "B2_WRITE_ON_REJECT", "B2_OUTPUT_OVERRUN", "COMMITMENT_MISMATCH", "COMMITMENT_THREW", "TSAN_RACE"] + CRASH,
         "rule": "simulated stream reader: 1-4 concurrent blake2b states (outlen 1-64, optional key, message lengths biased to block boundaries) fed in seeded chunkings and interleavings, early finals, misuse after final, invalid-parameter calls, "
                 "single-call cross-check, commitment, empty chunks and empty messages also as (NULL, 0); oracle: BLAKE2b written from RFC 7693, operation by operation; a case is one stream plan; distinct_nontrivial counts distinct (streams, steps) shapes; "
                 "the streams-threads batch gives the states to 2-4 simulated caller threads under the race detector (independent states must not share mutable library state)",
